@@ -53,6 +53,10 @@ add("C07", "bounded-exhaustive enumeration of host-shareable type trees x addres
     "Every type tree of the F3 grammar (leaves, arrays n=1..3 and runtime-sized, structs of 1-3 members each plain and with one @align/@size attribute, nested structs/arrays incl. inner structs with attributes) is placed in storage and (where valid) uniform buffers. Static: IR offsets/spans/strides and SPIR-V Offset/ArrayStride/MatrixStride decorations equal the reference layout. Dynamic: a probe reads every leaf and copies the whole value five ways; the emitted SPIR-V/HLSL/MSL/GLSL is executed by independent interpreters that address memory through the emitted code's own declarations, over a source buffer with a distinct sentinel per word, and compared with the reference evaluator.",
     "Reference layout: internal/wgen/layout.go (WGSL spec). f16 and atomic members are outside the enumerated alphabet. Text-backend layouts are observed dynamically (touched bytes) through the interpreters' own std140/std430, C++ and cbuffer calculators.", "DESIGN.md §3 C07")
 
+add("C15", "bounded-exhaustive enumeration of hardened operators x hostile operand tuples, dynamic access forms x index-partition representatives x index types, and uninitialised-variable reads, executed under each backend's protective options in trapping interpreters",
+    "Every hardened operator named by the property on every tuple of a hostile operand alphabet; each of 27 dynamic access forms (reads, stores, compound assignment, atomics; storage/uniform/private/workgroup/function/value objects; nested chains; pointer arguments; runtime arrays) with every representative of the index partition {0, n-1, n, n+1, 2^31-1, 2^31, 2^32-1} and both index types; reads of variables without initialiser. The emitted code runs in interpreters that trap on every operation the target language leaves undefined (poisoned locals, out-of-object accesses, division by zero, out-of-range conversions); results must equal the WGSL-defined and policy-defined values.",
+    "The index alphabet is a partition by guard outcome, not the full 32-bit range. SPIR-V and GLSL offer no index policy in this tree: the access family is not applied to them.", "DESIGN.md §3 C15")
+
 NA = {
 }
 for i in range(1, 20):
